@@ -116,8 +116,13 @@ package bgp
 //@ func (*BGPHeader).DecodeFromBytes
 //@   modifies msg.*
 //@   ensures err == nil ==> msg.Len >= 19 && len(data) >= 19
+// from C07 "every ... NOTIFICATION carries the RFC 4271 code and subcode": a KEEPALIVE is the 19-octet header and
+// nothing else (RFC 4271 4.4, 6.1: any other length is a Bad Message Length header error)
 //@ func (*BGPKeepAlive).DecodeFromBytes
+//@   tag C05 C07
 //@   modifies nothing
+//@   ensures len(data) != 0 ==> errIs(result, BGP_ERROR_MESSAGE_HEADER_ERROR, BGP_ERROR_SUB_BAD_MESSAGE_LENGTH)
+//@   ensures len(data) == 0 ==> result == nil
 //@ func (*BGPNotification).DecodeFromBytes
 //@   modifies msg.*
 //@ func (*BGPRouteRefresh).DecodeFromBytes
